@@ -6,6 +6,7 @@ import (
 	"fmt"
 	"os"
 	"path/filepath"
+	"regexp"
 	"sort"
 	"strconv"
 	"strings"
@@ -139,8 +140,16 @@ func cmdCheck(args []string) int {
 	notes := map[string]bool{}
 	trusted := map[string]bool{}
 	inlined := map[string]bool{}
-	for _, k := range keys {
-		u, err := vc.BuildUnit(P, k, profile)
+	done := map[string]bool{}
+	work := append([]string{}, keys...)
+	for len(work) > 0 {
+		k := work[0]
+		work = work[1:]
+		if done[k] {
+			continue
+		}
+		done[k] = true
+		u, err := vc.BuildUnit(P, k, profile, *prop)
 		if err != nil {
 			fmt.Fprintln(os.Stderr, "encoding error:", err)
 			return 2
@@ -158,6 +167,12 @@ func cmdCheck(args []string) int {
 		for _, o := range u.Obligs {
 			if o.Props == nil || hasProp(o.Props, *prop) {
 				all = append(all, o)
+			}
+		}
+		// contracts of callees that were used modularly must be proved in this run too
+		for _, c := range u.Callees {
+			if !done[c] {
+				work = append(work, c)
 			}
 		}
 	}
@@ -213,15 +228,40 @@ func cmdCheck(args []string) int {
 	violations := 0
 	replayDir := filepath.Join(*verif, "out", "replay")
 	os.MkdirAll(replayDir, 0o755)
+	widx := loadWitnessIndex(filepath.Join(*verif, "witnesses", "index.json"))
+	wcache := map[string][2]string{}
 	for _, r := range failed {
 		violations++
 		path := filepath.Join(replayDir, *prop+"-"+sanitize(r.O.Name)+".json")
 		rp := map[string]interface{}{"property": *prop, "obligation": r.O.Name, "kind": r.O.Kind, "clause": r.O.Text, "source": r.O.Pos,
 			"status": r.Status, "solver_results": r.Answers, "smt_file": r.File, "reproduced": false,
 			"note": "the verifier did not accept this obligation; no concrete failing input was derived (solver gave no usable model)"}
+		suffix := " no-failing-input-found"
+		// replay: run the concrete inputs recorded for this obligation against the real code
+		for _, w := range widx {
+			if !w.re.MatchString(r.O.Name) {
+				continue
+			}
+			key := w.Pkg + " " + w.Run
+			res, ok := wcache[key]
+			if !ok {
+				pass, out := runWitness(*verif, *repo, w.Pkg, w.Run)
+				res = [2]string{fmt.Sprint(pass), out}
+				wcache[key] = res
+			}
+			rp["replay_test"] = map[string]string{"package": w.Pkg, "run": w.Run, "files": filepath.Join(*verif, "witnesses", w.Pkg)}
+			rp["replay_output"] = trunc(res[1], 4000)
+			if res[0] == "false" {
+				rp["reproduced"] = true
+				rp["note"] = "the obligation failed and the recorded concrete input for it fails against the real code (go test -overlay, nothing written to the repository)"
+				suffix = ""
+				break
+			}
+			rp["note"] = "the obligation failed; the recorded concrete input for it does not fail on this tree"
+		}
 		b, _ := json.MarshalIndent(rp, "", " ")
 		os.WriteFile(path, b, 0o644)
-		fmt.Printf("VIOLATION property=%s replay=%s obligation=%s no-failing-input-found\n", *prop, path, r.O.Name)
+		fmt.Printf("VIOLATION property=%s replay=%s obligation=%s%s\n", *prop, path, r.O.Name, suffix)
 	}
 	wall := time.Since(t0).Seconds()
 	// evidence
@@ -266,6 +306,37 @@ func cmdCheck(args []string) int {
 		return 1
 	}
 	return 0
+}
+
+type witnessEntry struct {
+	Obligation string `json:"obligation"`
+	Pkg        string `json:"pkg"`
+	Run        string `json:"run"`
+	re         *regexp.Regexp
+}
+
+func loadWitnessIndex(path string) []*witnessEntry {
+	var f struct {
+		Witnesses []*witnessEntry `json:"witnesses"`
+	}
+	b, err := os.ReadFile(path)
+	if err != nil {
+		return nil
+	}
+	if err := json.Unmarshal(b, &f); err != nil {
+		fmt.Fprintln(os.Stderr, "witnesses/index.json:", err)
+		return nil
+	}
+	var out []*witnessEntry
+	for _, w := range f.Witnesses {
+		re, err := regexp.Compile(w.Obligation)
+		if err != nil {
+			continue
+		}
+		w.re = re
+		out = append(out, w)
+	}
+	return out
 }
 
 func sortedKeys(m map[string]bool) []string {
